@@ -151,6 +151,9 @@ func (s *CountMinSketch) spec_Addn(h uint64, n int) {
 	ensures("wf", sp_wfSketch(s) && len(s.Table) == old(len(s.Table)))
 	ensures("monotone", all(func(i uint) bool { return sp_wordGe(s.Table[i], old(s.Table[i])) }))
 	ensures("J", sp_J(s))
+	// bulk additions (restoring saved frequencies) are not part of the sample: the additions count, and with
+	// it the distance to the next aging reset, is unchanged - so Add's equality test can never be stepped over
+	ensures("additions_unchanged", s.Additions == old(s.Additions) && s.SampleSize == old(s.SampleSize))
 	only("J", "req.J", "post.monotone", "post.wf")
 }
 
